@@ -55,7 +55,7 @@ PROPS = {
         "honestly or with 1-2 deviations (foreign client, replay, wrong/missing redirect_uri or verifier, wrong/no secret). non-trivial = at least one honest redemption "
         "succeeded and one adversarial redemption was attempted; distinct = distinct step history",
         {"runs": 250, "wall": 60}, {"runs": 40000, "wall": 900},
-        {"quick": {"_runs": 1500, "honest-redeem-success": 1000, "adversarial-redeem": 5000, "code-issued": 3000, "concurrent-pairs": 3000, "premature-callbacks": 2000, "authorization-with-id-token-hint": 1000},
+        {"quick": {"_runs": 1500, "code-redeemed-with-another-loopback-uri": 150, "native-loopback-port-variation": 1000, "honest-redeem-success": 1000, "adversarial-redeem": 5000, "code-issued": 3000, "concurrent-pairs": 3000, "premature-callbacks": 2000, "authorization-with-id-token-hint": 1000},
          "thorough": {"_runs": 50000, "honest-redeem-success": 50000}},
         "Seeded exploration of interleaved multi-client histories; every 2xx token response is checked against the ledger of issued codes (client, redirect URI, PKCE, single use, token binding).",
         "DESIGN.md section 4 C04"),
@@ -77,7 +77,7 @@ PROPS = {
         "one evaluation = one seeded world (router, provider flags, storage capabilities, 5 client registrations with random grant sets) running 40-80 actor steps; each step picks endpoint x grant x client x credential presentation "
         "(right, wrong secret, secret by the other method, id only, none, assertion signed by foreign/other client's key, expired, wrong aud, sub!=iss, future iat). non-trivial = at least one success was checked; distinct = distinct step history",
         {"runs": 40, "wall": 90}, {"runs": 8000, "wall": 1200},
-        {"quick": {"_runs": 400, "refresh-success": 300, "introspect-active": 200, "other-grant-success": 150, "device-code-issued": 200, "secret-check-fails": 300},
+        {"quick": {"_runs": 400, "code-redeemed-after-grant-was-withdrawn": 300, "refresh-success": 300, "introspect-active": 200, "other-grant-success": 150, "device-code-issued": 200, "secret-check-fails": 300},
          "thorough": {"_runs": 20000}},
         "Seeded exploration; one-directional oracle: every token issued, active:true, effective revocation or device code implies the reference matrix admits the presented credentials and the grant is registered and enabled; refusals must be OAuth error documents.",
         "DESIGN.md section 4 C05 and Appendix C"),
@@ -97,7 +97,7 @@ PROPS = {
         "one evaluation = one seeded world running 40-80 actor steps (obtain, userinfo, introspect, revoke with/without hint by owner/foreign/public client, end_session, clock advance to and past expiry). "
         "non-trivial = a token was honoured and a revocation or logout took effect; distinct = distinct step history",
         {"runs": 40, "wall": 90}, {"runs": 8000, "wall": 1200},
-        {"quick": {"_runs": 400, "userinfo-200": 500, "introspect-active": 150, "introspect-inactive": 500, "revocation-effective": 300, "garbage-revocation": 100, "foreign-revocation-attempt": 50, "logout": 300, "race-groups": 1500, "race-use-ok": 600, "race-kill-ok": 1500, "race-use-overlapping-kill": 300,
+        {"quick": {"_runs": 400, "clock-at-a-token's-expiry-instant": 80, "userinfo-200": 500, "introspect-active": 150, "introspect-inactive": 500, "revocation-effective": 300, "garbage-revocation": 100, "foreign-revocation-attempt": 50, "logout": 300, "race-groups": 1500, "race-use-ok": 600, "race-kill-ok": 1500, "race-use-overlapping-kill": 300,
                    "race-linearizability-checked": 1200, "subject-with-colon": 100, "exchange-success": 150, "exchange-with-actor-success": 50, "exchange-id-token-subject-success": 20},
          "thorough": {"_runs": 20000}},
         "Seeded exploration; userinfo 200 / active:true imply the token is live in the reference model (and the caller authenticated and in the audience); inactive answers are exactly {active:false}; owner revocation and logout kill the tokens; foreign revocation is refused; garbage revocation answers 200.",
@@ -108,7 +108,7 @@ PROPS = {
         "one evaluation = one seeded world (router, token types, policy) running 40-80 actor steps: obtain tokens, exchange (subject kind x actor kind x declared type x requested type x scopes x caller x presentation), "
         "revoke, logout, clock jumps, policy changes (default type, veto, impersonation, dropped scopes). non-trivial = at least one exchange succeeded; distinct = distinct step history",
         {"runs": 40, "wall": 90}, {"runs": 8000, "wall": 1200},
-        {"quick": {"_runs": 400, "exchange-success": 300, "veto-at-ValidateTokenExchangeRequest": 20, "veto-at-CreateTokenExchangeRequest": 15, "veto-at-GetPrivateClaimsFromTokenExchangeRequest": 5, "veto-at-SetUserinfoFromTokenExchangeRequest": 3, "act-chain-decided": 3}, "thorough": {"_runs": 20000}},
+        {"quick": {"_runs": 400, "clock-at-a-token's-expiry-instant": 100, "exchange-success": 300, "veto-at-ValidateTokenExchangeRequest": 20, "veto-at-CreateTokenExchangeRequest": 15, "veto-at-GetPrivateClaimsFromTokenExchangeRequest": 5, "veto-at-SetUserinfoFromTokenExchangeRequest": 3, "act-chain-decided": 3}, "thorough": {"_runs": 20000}},
         "Seeded exploration; every 2xx exchange implies an authenticated, registered client, live subject/actor tokens of the declared type, no veto, a non-empty token of the declared kind that is live at the provider and carries the subject, scopes and actor the journal shows the policy decided.",
         "DESIGN.md section 4 C15"),
     "C09": dict(flow(
@@ -131,7 +131,7 @@ PROPS = {
         "one evaluation = one seeded world (router, user-code alphabet/length/dash interval, lifetime, poll interval) running 30-70 actor steps: start (any client, any credential presentation), approve/deny, poll (right/foreign client, unknown code, "
         "injected storage timeout), clock advance, and a complete client polling loop with approval/denial/expiry after 0-3 polls. non-trivial = tokens were issued at least once; distinct = distinct step history",
         {"runs": 40, "wall": 90}, {"runs": 8000, "wall": 1200},
-        {"quick": {"_runs": 400, "device-started": 1500, "device-tokens": 500, "poll-loop-approve": 500, "poll-answer-slow_down": 100, "poll-answer-expired_token": 100, "poll-answer-access_denied": 100, "storage-timeout": 100, "user-code-collisions": 50, "race-groups": 500, "race-device-tokens": 150},
+        {"quick": {"_runs": 400, "polls-around-the-expiry-instant": 100, "device-started": 1500, "device-tokens": 500, "poll-loop-approve": 500, "poll-answer-slow_down": 100, "poll-answer-expired_token": 100, "poll-answer-access_denied": 100, "storage-timeout": 100, "user-code-collisions": 50, "race-groups": 500, "race-device-tokens": 150},
          "thorough": {"_runs": 20000}},
         "Seeded exploration; tokens imply approval of that code by the ledger user and the initiating, authenticated client; refusals follow the reference state machine (pending/denied/expired/slow_down); response fields follow the configuration; bounded progress of the real polling loop after approval.",
         "DESIGN.md section 4 C16 and Appendix C"),
@@ -141,7 +141,7 @@ PROPS = {
         "one evaluation = one seeded world (router, 4 random client registrations: application type x dev mode x auth method x response types x 1-4 registered URIs x opted-in or ignored globs) running 40-80 steps: authorize with a redirect_uri "
         "drawn from 26 mutation kinds of a registered URI, crossed with response type/mode, other broken parameters and storage faults; callbacks for done/not-done/unknown requests. non-trivial = a redirect to a client and an error page both occurred",
         {"runs": 400, "wall": 60}, {"runs": 150000, "wall": 1200},
-        {"quick": {"_runs": 5000, "redirect-to-client": 20000, "to-login": 5000, "error-page": 100000, "error": 4000, "concurrent-callback-pairs": 800}, "thorough": {"_runs": 500000}},
+        {"quick": {"_runs": 5000, "response-type-spelled-unusually": 5000, "redirect-to-client": 20000, "to-login": 5000, "error-page": 100000, "error": 4000, "concurrent-callback-pairs": 800}, "thorough": {"_runs": 500000}},
         "Seeded exploration; whenever the user agent is sent anywhere but the login page (302 or form_post) the target must be the requested URI and that URI must be allowed for the client by the reference matcher; missing/unknown-client requests get an error page.",
         "DESIGN.md section 4 C03 and Appendix C"),
     "C18": flow(
@@ -150,7 +150,7 @@ PROPS = {
         "one evaluation = one seeded world (router, algorithm, per-client post-logout registrations and globs, id-token lifetimes) running 40-80 steps: obtain id tokens, advance the clock, logout with hint kind x client_id x post_logout_redirect_uri kind x state x GET/POST. "
         "non-trivial = at least one logout redirected and one was rejected",
         {"runs": 40, "wall": 90}, {"runs": 8000, "wall": 1200},
-        {"quick": {"_runs": 400, "logout-redirect": 2000, "logout-rejected": 4000, "redirect-to-registered": 800, "expired-hint-accepted": 300, "hints-of-other-tenant": 300}, "thorough": {"_runs": 20000}},
+        {"quick": {"_runs": 400, "separate-access-token-keyset": 80, "separate-hint-keyset": 40, "hints-signed-by-the-hint-keyset-key": 100, "logout-redirect": 2000, "logout-rejected": 4000, "redirect-to-registered": 800, "expired-hint-accepted": 300, "hints-of-other-tenant": 300}, "thorough": {"_runs": 20000}},
         "Seeded exploration; a redirect goes to the default URI or to a URI registered for the client proven by a validly signed hint (or client_id); invalid hints and contradictions are rejected; expired valid hints are accepted; the journal shows the hint's subject and client being terminated; state arrives unchanged.",
         "DESIGN.md section 4 C18"),
     "C17": flow(
@@ -168,7 +168,7 @@ PROPS = {
         "one evaluation = one seeded world (router, one of 8 signing algorithms, per-client token type/skew/lifetime/assertion flag, colliding custom claims) running 25-50 steps over 7 flows plus key rotation and clock advance. "
         "non-trivial = id tokens and access tokens were both checked; distinct = distinct step history",
         {"runs": 40, "wall": 90}, {"runs": 8000, "wall": 1200},
-        {"quick": {"_runs": 400, "id-tokens-checked": 8000, "access-tokens-checked": 8000, "rotation-in-mid-request": 500, "signed-with-key-rotated-in-mid-request": 300, "refresh-after-refused-wish": 200, "multi-tenant-steps": 2000}, "thorough": {"_runs": 20000}},
+        {"quick": {"_runs": 400, "id-token-issued-by-a-slow-request": 100, "id-tokens-checked": 8000, "access-tokens-checked": 8000, "rotation-in-mid-request": 500, "signed-with-key-rotated-in-mid-request": 300, "refresh-after-refused-wish": 200, "multi-tenant-steps": 2000}, "thorough": {"_runs": 20000}},
         "Seeded exploration with exact-time oracles (the simulated clock is frozen during a request): signing key, rp.VerifyTokens against the published JWKS over simnet, iss/aud/azp/sub/nonce/auth_time/amr, iat and exp equalities, at_hash/c_hash, user claims only for granted scopes, opaque tokens decrypt only with the provider key, expires_in/scope equal the stored values.",
         "DESIGN.md section 4 C06"),
     "C14": flow(
@@ -176,7 +176,7 @@ PROPS = {
         "deterministic simulation: seeded assertions (iss, sub, aud, iat, exp on clock boundaries, kid, signing key) presented as jwt-bearer grant and as client authentication at four endpoints, signed request objects, and the library's own client helpers, against the real provider - in half of the worlds a multi-tenant provider (2-3 issuers from the Host or, behind a simulated reverse proxy, the Forwarded header) with every step addressed to a seeded tenant",
         "one evaluation = one seeded world running 40-80 steps: generated assertion x 5 surfaces, request object with 0-2 deviations, helper interop (profile, rs, tokenexchange, rp), clock advance. non-trivial = assertions were both accepted and refused",
         {"runs": 40, "wall": 90}, {"runs": 8000, "wall": 1200},
-        {"quick": {"_runs": 400, "assertion-accepted": 2000, "assertion-refused": 5000, "helper-assertions-accepted": 1500, "request-object-honoured": 300, "request-object-not-honoured": 3000, "multi-tenant-steps": 5000}, "thorough": {"_runs": 20000}},
+        {"quick": {"_runs": 400, "concurrent-assertion-groups": 500, "concurrent-forgeries-rejected": 400, "assertion-accepted": 2000, "assertion-refused": 5000, "helper-assertions-accepted": 1500, "request-object-honoured": 300, "request-object-not-honoured": 3000, "multi-tenant-steps": 5000}, "thorough": {"_runs": 20000}},
         "Seeded exploration; accepted assertions must be valid in the reference model for the client named as issuer (key, audience, times outside a 2 s band, sub=iss) and the authenticated identity equals the issuer; request-object parameters take effect only for valid objects; helper-made assertions are accepted.",
         "DESIGN.md section 4 C14"),
     "C11": flow(
@@ -185,7 +185,7 @@ PROPS = {
         "one evaluation = one seeded world (router, RP response mode, session state on/off) running 30-60 steps: raw authorization (success or error) with generated state/nonce x response type x mode x redirect URI shape, or a complete login through the real relying party. "
         "The values are seeded generation over Unicode and ASCII punctuation; only the pipeline is simulation. non-trivial = responses were decoded and the RP pipeline ran",
         {"runs": 40, "wall": 90}, {"runs": 8000, "wall": 1200},
-        {"quick": {"_runs": 400, "responses-decoded": 8000, "mode-form_post": 1500, "mode-fragment": 3000, "mode-query": 3000, "pipeline-completed": 3000, "storage-error-responses": 300, "storage-error-responses-without-state": 30, "sentinel": 300, "response-write-fails": 500, "storage-error-text-arrived-intact": 80}, "thorough": {"_runs": 20000}},
+        {"quick": {"_runs": 400, "responses-decoded": 8000, "mode-form_post": 1500, "mode-fragment": 3000, "mode-query": 3000, "pipeline-completed": 3000, "storage-error-responses": 300, "storage-error-responses-without-state": 30, "sentinel": 300, "response-write-fails": 500, "storage-error-text-arrived-intact": 80, "storage-oauth-error-arrived-intact": 100}, "thorough": {"_runs": 20000}},
         "Seeded exploration; what the user agent decodes equals what the provider produced and the client sent (code, state, session_state, tokens, error, description), pre-existing query parameters survive, the form has exactly the expected DOM, and fault-free logins complete at the relying party.",
         "DESIGN.md section 4 C11"),
     "C19": flow(
@@ -205,7 +205,7 @@ PROPS = {
         "(strip, alg none, 18 HMAC-with-public-key encodings, re-sign, kid games, payload edits, truncation, segment counts, alg outside the allow-list, wrong key type, JSON general/flattened serialisation incl. smuggled payloads, embedded jwk). "
         "Epilogue (a history): the provider rotates and retires its key; the same long-lived verifiers must believe the new key's tokens and, having fetched the new set, reject the retired key's. distinct non-trivial = distinct (surface, operator, algorithm, key-set shape) delivered",
         {"runs": 30, "wall": 90}, {"runs": 6000, "wall": 1200},
-        {"quick": {"_runs": 300, "genuine-accepted": 1000, "tampered-rejected": 40000, "hmac": 10000, "json": 4000, "kidless-probes": 20, "_distinct": 3000, "rotation-epilogues": 150, "retired": 400, "second-client-key-used": 250, "kidless-history-probes": 20}, "thorough": {"_runs": 20000}},
+        {"quick": {"_runs": 300, "withdrawn-key-rejected": 300, "genuine-accepted": 1000, "tampered-rejected": 40000, "hmac": 10000, "json": 4000, "kidless-probes": 20, "_distinct": 3000, "rotation-epilogues": 150, "retired": 400, "second-client-key-used": 250, "kidless-history-probes": 20}, "thorough": {"_runs": 20000}},
         "Fault enumeration over the stated operator catalogue (complete per world): only the unmodified token (and a kid-less re-signature with exactly one candidate key) may be believed; the claims handed back are those of the signed payload; two fitting keys and no kid must be refused.",
         "DESIGN.md section 4 C02", level="fault_enumeration",
         level_note="Trusted: go-jose's primitives. The catalogue is the manipulation space; no schedule dimension."),
@@ -215,7 +215,7 @@ PROPS = {
         "one evaluation = one seeded world (algorithm, key) x 100-200 verifications: verifier configuration (offset, max iat age, max auth age, nonce, acr) and claims (iss, sub, aud, azp, exp, iat, auth_time, nonce, acr, at_hash, wrong key) drawn per case, the simulated clock advanced to the instant of verification. "
         "The time axis is decided by the simulator; the claim dimensions are seeded generation. non-trivial = acceptances, rejections and boundary placements all occurred",
         {"runs": 20, "wall": 90}, {"runs": 6000, "wall": 1200},
-        {"quick": {"_runs": 300, "accepted": 5000, "rejected": 20000, "on-a-time-boundary": 5000, "remote-key-set-worlds": 60, "rejected-while-jwks-endpoint-was-down": 20, "download-and-rotation-in-one-second": 500}, "thorough": {"_runs": 20000}},
+        {"quick": {"_runs": 300, "accepted": 5000, "rejected": 20000, "on-a-time-boundary": 5000, "remote-key-set-worlds": 60, "rejected-while-jwks-endpoint-was-down": 20, "download-and-rotation-in-one-second": 500, "kidless-provider-worlds": 15}, "thorough": {"_runs": 20000}},
         "Seeded exploration; accept implies every conjunct of OIDC Core 3.1.3.7 holds at the simulated instant, every conjunct holding with more than 2 s margin implies acceptance with unchanged claims; inside the band either answer is admissible.",
         "DESIGN.md section 4 C01"),
     "C20": dict(flow(
